@@ -58,7 +58,7 @@ def run(ck, tier, seed):
                 for ppm in (0, 12):
                     srcs.append({"font": stepfont, "text": t, "dir": d, "ppm": ppm})
     # fonts that ask for line-end markers around the justified line (Silf flags bit 0; staged from shipped fonts)
-    letexts = {"charis": "udhr_eng.txt", "Padauk": "my_HeadwordSyllables.txt", "Scheherazadegr": "udhr_arb.txt"}
+    letexts = {"charis": "udhr_eng.txt", "Padauk": "my_HeadwordSyllables.txt", "Scheherazadegr": "udhr_arb.txt", "Charis5": "udhr_eng.txt"}
     for lf in corpus.lineend_fonts(tmp):
         key = [k for k in letexts if k in os.path.basename(lf)][0]
         ls = [l.strip() for l in open(os.path.join(corpus.T, letexts[key]), encoding="utf-8") if len(l.strip()) >= 6]
@@ -67,6 +67,8 @@ def run(ck, tier, seed):
             for d in (0, 1, 3):
                 for ppm in (0, 12):
                     srcs.append({"font": lf, "text": t[:rng.choice([8, 20, 40])], "dir": d, "ppm": ppm})
+                # ... and with an application-hinted font (advances asked from the client, also for the marker glyphs)
+                srcs.append({"font": lf, "text": t[:rng.choice([8, 20])], "dir": d, "ppm": 13, "hinted": 1})
     # a font whose first pass is a positioning pass and whose bidi step comes first (no justification passes to run)
     pf = corpus.posonly_font(tmp)
     for t in ("abcab", "ab ba cab", "bbaab(c)"):
